@@ -5,7 +5,8 @@ open PttVerif PttVerif.C15
 def parseNats15 (s : String) : Option (List Nat) :=
   if s = "-" then some [] else (s.splitOn ",").mapM (·.toNat?)
 
-/-- op: reg <cap> <taken: code per slot, 0 = empty> <ids: code per thread> <schedule: t,t,...>
+/-- op: regp <cap> <taken> <ids> <procs: process per thread> <schedule: elements, see Model `decodeEv`>
+op: reg <cap> <taken: code per slot, 0 = empty> <ids: code per thread> <schedule: t,t,...>
 Whether the lookup is repeated under the lock is what the regenerated source facts say. -/
 def stepC15 (_ : Unit) (ws : List String) : Unit × String :=
   let out := match ws with
@@ -16,6 +17,16 @@ def stepC15 (_ : Unit) (ws : List String) : Unit × String :=
               runSchedule c taken idl sourceChecksUnderLock sched
             else "bad-op"
         | _, _, _, _ => "bad-op"
+    | ["regp", cap, tk, ids, pr, sc] =>
+        -- threads in server processes: `pr` = process of every thread (no effect on the model: Props.stepP_ignores_proc)
+        match cap.toNat?, parseNats15 tk, parseNats15 ids, parseNats15 pr, parseNats15 sc with
+        | some c, some taken, some idl, some procs, some sched =>
+            if procs.length == idl.length && idl.all (· ≠ 0) &&
+               sched.all (fun e => if e < 50 then e < idl.length else if e < 100 then e - 50 < idl.length else true) then
+              runScheduleP c taken idl sourceChecksUnderLock sched
+            else "bad-op"
+        | _, _, _, _, _ => "bad-op"
+    | ["exited", _] => "sem=1"     -- server processes holding no lock exit: the semaphore stays free (SEM_UNDO counts balance); judged by the oracle
     | ["peer", _] => "excluded"   -- mutual exclusion is a theorem (Props.mutual_exclusion); judged on the real code by the oracle
     | ["facts"] => s!"checkUnderLock={sourceChecksUnderLock} wellFormed={wellFormedCalls Gen.Reg.setupNewUserCalls}"
     | _ => "bad-op"
